@@ -9,7 +9,8 @@ use crate::rng::Rng;
 use crate::util::{catch, hex, par_items};
 use crate::{obj, Ctx};
 use emulator_2a_lib::machine::{verif, Machine, MachineConfig, MicroprogramRam, State, StepMode, Word};
-use emulator_2a_lib::parser::Programsize;
+use emulator_2a_lib::compiler::ByteCode;
+use emulator_2a_lib::parser::{Line, Programsize, Stacksize};
 
 pub fn meta() -> Meta {
     Meta {
@@ -78,6 +79,9 @@ pub struct Case {
     pub limit: Limit,
     pub edges: usize,
     pub stim_seed: u64,
+    /// configure the limits the way a user does: load a first program that states them, then load
+    /// the program under test with *STACKSIZE NOSET / *PROGRAMSIZE NOSET (which keep the settings)
+    pub via_load: bool,
 }
 
 impl Case {
@@ -90,6 +94,7 @@ impl Case {
         });
         j.set("edges", J::from(self.edges));
         j.set("stim_seed", J::Int(self.stim_seed as i64));
+        j.set("via_load", J::Bool(self.via_load));
         j
     }
     fn from_json(j: &J) -> Case {
@@ -103,16 +108,28 @@ impl Case {
             },
             edges: j.get("edges").and_then(|v| v.as_u64()).unwrap_or(1000) as usize,
             stim_seed: j.get("stim_seed").and_then(|v| v.as_i64()).unwrap_or(0) as u64,
+            via_load: j.get("via_load").and_then(|v| v.as_bool()).unwrap_or(false),
         }
     }
     fn build(&self) -> Machine {
         let mut m = Machine::new(MachineConfig::default());
-        m.raw_mut().set_stacksize(real::stacksize_of(self.ss));
-        m.raw_mut().set_programsize(match self.limit {
-            Limit::Auto => Programsize::Auto,
-            Limit::Size(n) => Programsize::Size(n),
-        });
-        m.raw_mut().bus_mut().memory_mut().copy_from_slice(&self.init.ram);
+        match (self.via_load, self.limit) {
+            (true, Limit::Size(n)) => {
+                let first = ByteCode { lines: vec![(Line::Empty(None), vec![0x02, 0x01])], stacksize: real::stacksize_of(self.ss), programsize: Programsize::Size(n) };
+                m.load(first);
+                let image_len = self.init.ram.iter().rposition(|b| *b != 0).map(|p| p + 1).unwrap_or(0);
+                let second = ByteCode { lines: vec![(Line::Empty(None), self.init.ram[..image_len].to_vec())], stacksize: Stacksize::NotSet, programsize: Programsize::NotSet };
+                m.load(second);
+            }
+            _ => {
+                m.raw_mut().set_stacksize(real::stacksize_of(self.ss));
+                m.raw_mut().set_programsize(match self.limit {
+                    Limit::Auto => Programsize::Auto,
+                    Limit::Size(n) => Programsize::Size(n),
+                });
+                m.raw_mut().bus_mut().memory_mut().copy_from_slice(&self.init.ram);
+            }
+        }
         m.set_input_fc(self.init.inputs[0]);
         m.set_input_fd(self.init.inputs[1]);
         m.set_input_fe(self.init.inputs[2]);
@@ -447,7 +464,8 @@ fn gen_case(k: usize, rng: &mut Rng) -> Case {
         5 | 6 => Limit::Size(255),
         _ => Limit::Size(rng.u8()),
     };
-    Case { init, ss, limit, edges: 300 + rng.usize(4000), stim_seed: rng.next() }
+    let via_load = rng.chance(1, 4);
+    Case { init, ss, limit, edges: 300 + rng.usize(4000), stim_seed: rng.next(), via_load }
 }
 
 /// Directed cases that guarantee every floor class.
@@ -459,7 +477,7 @@ fn directed(k: usize) -> Option<Case> {
     let mk = |code: &[u8], limit: Limit| {
         let mut init = Init::zero();
         init.ram[..code.len()].copy_from_slice(code);
-        Case { init, ss, limit, edges: 400, stim_seed: k as u64 }
+        Case { init, ss, limit, edges: 400, stim_seed: k as u64, via_load: k % 2 == 1 }
     };
     Some(match k / 5 {
         // from above: LDSP hi+1 ; PUSH R0
@@ -506,7 +524,7 @@ fn record(rep: &mut Report, case: &Case) {
 }
 
 pub fn run(ctx: &Ctx) -> Report {
-    let n = ctx.size(80_000, 3_000_000) as usize;
+    let n = ctx.size(3_000_000, 40_000_000) as usize;
     let batches = (n + 49) / 50;
     par_items(ctx.threads, batches + 1, ctx.seed, move |i, seed, rep| {
         if i == 0 {
